@@ -463,6 +463,17 @@ def run(tier, seed):
     gjobs = [(stages, sk, gi) for gi, (stages, sk) in enumerate([(["analysis"], "local"), (["ANALYSIS", "STORE_INSPECT"], "memory"), (["analysis"], "local_lru"), ([], "local")])]
     sjobs = [(stages, sk, first, si * 2 + fi) for si, (stages, sk) in enumerate([(["analysis"], "local"), (["analysis", "store_inspect"], "memory"), (["analysis", "store_inspect", "eval", "store_commit"], "local_lru"), ([], "local")])
              for fi, first in enumerate(("caller-sorts-first", "caller-sorts-last"))]
+    # a restricted run of a reader in a long-lived process, another process keeps an edited producer, then the full run
+    from checks import c09
+
+    pjobs = [(pl, pr, ed, st, 8000 + pi_, "C15", stg) for pi_, (pl, pr, ed, st, stg) in enumerate([
+        ("top", "data", "prod_const", "local_api_cache_all", ["analysis"]), ("kept", "keep", "prod_var", "local_api_cache_5", ["analysis", "store_inspect", "eval", "store_commit"]),
+        ("helper", "data", "prod_callee", "local_api_cache_true", ["ANALYSIS"]), ("kept", "data", "prod_const", "local", ["analysis"]), ("top", "keep", "prod_const", "local_lru", [])])]
+    for j, r in zip(pjobs, core.fork_map(c09.other_process_job, pjobs, timeout=900)):
+        if isinstance(r, core.JobFailed):
+            rep.inconclusive.append("restricted-run / other-process job: %r" % (r,))
+        else:
+            rep.merge(r)
     xjobs = [(stages, sk, producer, xi) for xi, (stages, sk, producer) in enumerate([(["analysis"], "memory", "data"), (["analysis", "store_inspect", "eval", "store_commit"], "memory", "keep"), (["analysis"], "local", "data"),
                                                                                    (["ANALYSIS", "STORE_INSPECT"], "local_lru", "keep"), (["analysis", "store_inspect", "eval"], "memory_lru", "data")])]
     results = core.fork_map(lambda j: {"o": orphan_job, "c": case_job, "d": dep_change_job, "g": lazy_attr_job, "s": samename_job, "x": graph_dry_job}[j[0]](j[1]),
@@ -486,6 +497,11 @@ def run(tier, seed):
 def replay(payload):
     rep = core.Report("C15")
     c = payload["case"]
+    if c.get("other_process"):
+        from checks import c09
+
+        rep.merge(c09.other_process_job(tuple(c["other_process"])))
+        return rep
     if c.get("graph_dry"):
         rep.merge(graph_dry_job((c["stages"], c["store"], c["producer"], c["idx"])))
         return rep
